@@ -355,7 +355,7 @@ _RQ = ([('k0_s%d_m%d_b%d' % (s, m, b), 'kind == 0 and strat == %d and mi == %d a
 _RT = ([('k0_s%d_m%d_ub%d' % (s, m, u), 'kind == 0 and strat == %d and mi == %d and ub == %s' % (s, m, bool(u))) for s in range(7) for m in range(3) for u in (0, 1)] +
        [('k1_s%d_ub%d' % (s, u), 'kind == 1 and strat == %d and ub == %s and mi == 0 and ti == 1' % (s, bool(u))) for s in range(7) for u in (0, 1)])
 HARNESSES.append(
-  H('C04_race', quick=dict(timeout=280, shards=_RQ, extra_pre=['ti != 0', 'b0', 'b2 or kind == 0', 'n in (4, 14)', 'p2 in (0, 3)']), thorough=dict(timeout=900, shards=_RT, extra_pre=['n in (0, 2, 4, 6, 9, 14)', 'p2 in (0, 1, 3, 6)']),
+  H('C04_race', quick=dict(timeout=420, shards=_RQ, extra_pre=['ti != 0', 'b0', 'b2 or kind == 0', 'n in (4, 14)', 'p2 in (0, 3)']), thorough=dict(timeout=900, shards=_RT, extra_pre=['n in (0, 2, 4, 6, 9, 14)', 'p2 in (0, 1, 3, 6)']),
     covers=['interleaved', 'stopped'], replay='replay_race', twin_pre=['strat == 3 and mi == 0'],
     encodes=['carbon.writer:writeForever / writeCachedDataPoints / shutdownModifyUpdateSpeed (statement-level coroutines)',
              'carbon.cache:_MetricCache.store / drain_metric / pop, strategies (statement-level coroutines)',
